@@ -27,8 +27,8 @@ def run(ctx):
     ok, out = common.ensure_build("hooks", targets=("sympler",))
     ctx.oblige("hooked build of /repo", ok, out[-300:])
     gridcheck.translate(ctx)
-    common.lean_obligations(ctx, ["Props.C01", "Props.C01Tables", "Props.C01TablesB", "Props.C01TablesC", "Props.C01General", "Props.CreateDist", "Sympler.PairSearch", "symdrv"],
-                            ["Props.C01", "Props.C01Tables", "Props.C01TablesB", "Props.C01TablesC", "Props.C01General", "Props.CreateDist"], THEOREMS + T2 + T3 + gridcheck.SITE_THEOREMS, MODULES + gridcheck.SITE_MODULES)
+    common.lean_obligations(ctx, ["Props.C01", "Props.C01Tables", "Props.C01TablesB", "Props.C01TablesC", "Props.C01General", "Props.CreateDist", "Props.PairSearchSites", "Sympler.PairSearch", "symdrv"],
+                            ["Props.C01", "Props.C01Tables", "Props.C01TablesB", "Props.C01TablesC", "Props.C01General", "Props.CreateDist", "Props.PairSearchSites"], THEOREMS + T2 + T3 + gridcheck.SITE_THEOREMS, MODULES + gridcheck.SITE_MODULES)
     n = 60 if not ctx.thorough else 1500
     summ, keep = (None, None)
     if ok:
